@@ -9,7 +9,11 @@
 (***************************************************************************)
 EXTENDS CalEq
 
-CONSTANTS MaxDim
+CONSTANTS MaxDim,   \* largest number of rows / columns
+          AllPerms  \* TRUE: renumbering checked for every permutation;
+                    \* FALSE: for the two generators of the symmetric group
+                    \* (the universe is closed under renumbering, so
+                    \* consistency under the generators composes)
 
 VARIABLES cfg, phase
 
@@ -174,7 +178,10 @@ FullAndAbbreviatedAgree ==
 (* its terms, the leakage cells and the positions of the given M cells     *)
 RenumberingIsConsistentPermutation ==
     (r = c /\ OK(std)) =>
-      \A pi \in Permutations(1..p) :
+      \A pi \in (IF AllPerms THEN Permutations(1..p)
+                  ELSE {[i \in 1..p |-> (i % p) + 1],
+                        [i \in 1..p |-> IF p >= 2 /\ i = 1 THEN 2
+                                        ELSE IF i = 2 THEN 1 ELSE i]}) :
          LET s2 == Renumber(std, pi)
          IN /\ OK(s2)
             /\ Equations(t, r, c, s2) = {RenEq(e, pi) : e \in Equations(t, r, c, std)}
